@@ -68,6 +68,7 @@ type nodeInc struct {
 	gone      chan struct{} // closed when the incarnation's main goroutine has returned
 	diskErrs  int // disk errors injected into this incarnation
 	obsBroken bool
+	intruder  *Raft // a second instance currently attempting to serve this directory (C20)
 	crashAtIO int // >0: crash when this many more I/O calls were made by this incarnation
 	ioCount   int
 	startedAt int64
@@ -155,6 +156,7 @@ type simRun struct {
 
 	shutdownAt  int64
 	healedAt    int64
+	finishNow   bool // shutdown phase: only fenced incarnations are left, end the run
 	settleStart int64
 	doneClients int
 	admins      int
@@ -935,7 +937,7 @@ func (run *simRun) loop() {
 		if run.stop {
 			return
 		}
-		if run.phase == "shutdown" && len(run.sim.Live()) == 0 {
+		if run.phase == "shutdown" && (len(run.sim.Live()) == 0 || run.finishNow) {
 			run.phase = "done"
 			run.finalChecks()
 			return
@@ -950,7 +952,7 @@ func (run *simRun) loop() {
 			idleStreak = 0
 		}
 		if run.sim.Steps > 30_000_000 {
-			run.infra = "step budget exhausted; tail:"
+			run.infra = fmt.Sprintf("step budget exhausted in phase %s; %s\ntail:", run.phase, run.sim.Describe())
 			for _, e := range run.sim.Tail(30) {
 				run.infra += fmt.Sprintf("\n %d t=%d %c %d %s %s", e.Step, e.Now, e.Kind, e.ID, run.sim.SiteName(e.Site), e.Name)
 			}
